@@ -40,6 +40,36 @@ meta("C11",
      level_note="bounded obligations are labelled bounded; trusted: CBMC, its libc models, staging; see evidence.assumptions")
 
 
+meta("C15", may_claim_proof=True, category="proof",
+     explanation=("Every function of the completed manager (uriDecorateMalloc, uriDecorateFree, uriDecorateRealloc, "
+                  "uriEmulateCalloc, uriEmulateReallocarray, uriCompleteMemoryManager, uriMemoryManagerIsComplete) is under a "
+                  "function contract enforced by CBMC's DFCC instrumentation on the unmodified source, for all argument values "
+                  "(sizes up to SIZE_MAX, NULL arguments, backend failure). The history quantifier is discharged by the "
+                  "representation invariant hdr(p,s): 'a block handed out at p with size s is the tail of a backend block at "
+                  "p-8 of 8+s bytes whose first word is s'. Malloc establishes hdr (and w_ok over the full client size, in a "
+                  "fresh backend object => disjoint from every other live block); free requires hdr and hands the backend exactly "
+                  "its own pointer exactly once (is_freeable is the callee precondition, checked); realloc requires hdr and "
+                  "either keeps the block (shrink), or requests size bytes, copies the common prefix (ghost-indexed byte "
+                  "equality), releases the old block once, or on refusal returns NULL leaving block and header intact; "
+                  "NULL/zero-size cases follow realloc conventions; calloc/reallocarray refuse overflowing products with ENOMEM "
+                  "before asking and otherwise request exactly the product (calloc memory zero at the ghost index). Each "
+                  "operation requires hdr only of the block it is given and establishes it for the block it returns, so by "
+                  "induction over any call sequence every live block satisfies hdr; 'nothing outstanding once everything is "
+                  "freed' follows from one backend malloc per successful malloc and one backend free per free. The "
+                  "division-form overflow test is tied to the mathematical product by a Lean 4 lemma."),
+     assumptions=["backend malloc/free obey be_malloc_contract/be_free_contract (NULL or fresh block of the requested size; "
+                  "free accepts exactly a pointer it handed out)",
+                  "memcpy/memset obey the ghost-indexed libc contracts in contracts/UriMemory.contracts.h",
+                  "errno modelled as a plain global int (macro override in the harness TU)",
+                  "clients stay inside their blocks (the size header lies just below the client pointer)",
+                  "uriDecorateRealloc's hdr block is built by the harness with real assignments; its calls to memory->malloc / "
+                  "memory->free are replaced by contracts whose preconditions are those proved for uriDecorateMalloc/Free"],
+     trusted=["cvc5 1.0 (SMT back end for the two obligations containing 64-bit division)", "Lean 4.33 kernel (lemma mul_overflow_check)"],
+     level_text=("unbounded function contracts (DFCC) on all seven functions of src/UriMemory.c that make up the completed manager, "
+                 "plus a Lean lemma for the overflow test; history closure by the hdr representation invariant"),
+     level_note="assumed: backend contract, libc memcpy/memset contracts, errno as a global; see evidence.assumptions")
+
+
 def write_evidence(prop, tier, seed, results, obmap, violations, kf_lines, wall, findings, fixed):
     m = META.get(prop, {})
     groups = []
